@@ -537,7 +537,7 @@ pub fn gen_stake(r: &mut Rng, w: &mut Wallet, cx: &Ctx) -> Option<Transaction> {
     let inputs = pick_inputs(r, cx, 0, Some(Denom::Sym))?;
     let have = total(&inputs, Denom::Sym);
     let amount = 1 + r.u128() % have.max(1);
-    let amount = amount.min(have);
+    let amount = if r.chance(1, 12) { 0 } else { amount.min(have) };
     let epoch = cx.height / STAKE_EPOCH;
     let k = r.below(w.keys.len() as u64) as usize;
     // all orderings of current / start / end
@@ -652,6 +652,16 @@ pub fn grandfathered_faucet() -> Transaction {
     }
 }
 
+/// a faucet pays its fee out of nothing: usually a modest one, sometimes the largest value a fee may have (two of
+/// those in a block push the tips, and with them the proposer reward, beyond the maximum coin value)
+fn faucet_fee(r: &mut Rng) -> u128 {
+    match r.below(12) {
+        0 => 1 << 120,
+        1 => (1 << 120) - 1 - r.below(1000) as u128,
+        _ => r.below(1 << 30) as u128 + 1_000_000,
+    }
+}
+
 pub fn gen_faucet(r: &mut Rng, w: &mut Wallet, cx: &Ctx) -> Transaction {
     // the grandfathered transaction itself, on any network
     if r.chance(1, 12) {
@@ -668,7 +678,7 @@ pub fn gen_faucet(r: &mut Rng, w: &mut Wallet, cx: &Ctx) -> Transaction {
                 kind: TxKind::Faucet,
                 inputs: vec![],
                 outputs: vec![out(k, each, kp.liq_token_denom()), out(k, each, kp.liq_token_denom()), out(k, 1_000_000, Denom::Mel), out(k, 1_000_000, Denom::Mel)],
-                fee: CoinValue(r.below(1 << 30) as u128 + 1_000_000),
+                fee: CoinValue(faucet_fee(r)),
                 covenants: vec![],
                 data: r.bytes(8).into(),
                 sigs: vec![],
@@ -702,7 +712,7 @@ pub fn gen_faucet(r: &mut Rng, w: &mut Wallet, cx: &Ctx) -> Transaction {
         kind: TxKind::Faucet,
         inputs: vec![],
         outputs: outs,
-        fee: CoinValue(r.below(1 << 40) as u128 + 1_000_000),
+        fee: CoinValue(if r.chance(1, 6) { faucet_fee(r) } else { r.below(1 << 40) as u128 + 1_000_000 }),
         covenants: vec![],
         data: r.bytes(8).into(),
         sigs: vec![],
